@@ -2,8 +2,12 @@
 use vf_engine::Check;
 
 mod c01;
+mod c02;
+mod c03;
 mod c04;
+mod c05;
 mod c10;
+mod keys;
 mod c13;
 
 fn main() {
@@ -12,7 +16,10 @@ fn main() {
     let mut ck = Check::from_env(&id, &args[1.min(args.len())..]);
     match id.as_str() {
         "C01" => c01::run(&mut ck),
+        "C02" => c02::run(&mut ck),
+        "C03" => c03::run(&mut ck),
         "C04" => c04::run(&mut ck),
+        "C05" => c05::run(&mut ck),
         "C10" => c10::run(&mut ck),
         "C13" => c13::run(&mut ck),
         _ => {
